@@ -138,6 +138,8 @@ def prep_encode(s):
     if rc != 0 or result_line(out) != "ok":
         return f"fault-free encode failed: rc={rc} {out[-200:]} {err[-200:]}"
     s.ref["bytes_md5"] = md5_file(p)
+    s.ref["bytes"] = open(p, "rb").read()
+    s.ref["frames"] = framesinfo(p)   # where the frames are, from the finished fault-free twin
     s.ref["calls"] = count_calls(lines)
     s.ref["params"] = next((l for l in out.splitlines() if l.startswith("PARAMS")), "")
     rc, out, _ = sh([drv(), "pcm", str(seed)])
@@ -172,8 +174,24 @@ def eval_encode(s, tag, inject):
         if kill:
             if rc == 0:
                 return None  # the n-th call did not happen in this execution
-            # C14: the file as the killed process left it
+            # C14: the file as the killed process left it. Which frames are complete comes from the
+            # finished twin's frame map (finalize neither moves nor rewrites frames), not from the
+            # unfinished file's own header.
             fi = framesinfo(p)
+            try:
+                left = open(p, "rb").read()
+            except OSError:
+                left = b""
+            rf = s.ref["frames"]
+            if fi.get("ok") and rf.get("ok") and fi.get("audio_start") == rf["audio_start"]:
+                k, n = 0, 0
+                for end, smp in zip(rf["frame_ends"], rf["frame_samples"]):
+                    if end <= len(left) and left[rf["audio_start"]:end] == s.ref["bytes"][rf["audio_start"]:end]:
+                        k, n = k + 1, n + smp
+                    else:
+                        break
+                if n in s.ref["prefix"]:
+                    fi = dict(fi, frames=k, samples=n, pcm_md5=s.ref["prefix"][n])
             rc2, out2, err2 = sh([drv(), "decode", p, "sample"])
             d2 = died(rc2, err2)
             if d2:
